@@ -775,7 +775,7 @@ def wire_tree(tree):
 
 # ----------------------------------------------------------------------------- fresh interpreter
 
-def run_fresh(code, timeout=600):
+def run_fresh(code, timeout=600, stdin=''):
     """run python code in a fresh interpreter against the same repo; returns (returncode, stdout)"""
     import subprocess, sys
     from ..core import REPO
@@ -783,27 +783,23 @@ def run_fresh(code, timeout=600):
     env['PYTHONPATH'] = os.path.join(REPO, 'src') + os.pathsep + env.get('PYTHONPATH', '')
     env['PYTHONWARNINGS'] = 'ignore'
     p = subprocess.run([sys.executable, '-W', 'ignore', '-c', code], capture_output=True, text=True, env=env, cwd='/tmp',
-                       timeout=timeout)
+                       timeout=timeout, input=stdin)
     return p.returncode, p.stdout + p.stderr[-2000:]
 
 
 def fresh_verdicts(items):
-    """items: [(text, params)]; in ONE fresh interpreter, evaluating each item FIRST-HAND is impossible, so every item is
-    evaluated in the order given but before any valid call: True iff mass(text, **params) raises a ValueError or differs
-    from nothing being there is not decidable here, so: True iff mass raises ValueError-family (the value is unresolvable
-    in a clean state)"""
+    """items: [(text, params)], evaluated in ONE fresh interpreter before any valid call has been made there:
+    True iff mass(text, **params) raises (the value is unresolvable in a clean state)"""
     code = ('import json, sys, peptacular as pt\n'
-            'items = json.loads(sys.stdin.read()) if False else json.loads(%r)\n'
+            'items = json.loads(sys.stdin.read())\n'
             'out = []\n'
             'for text, prm in items:\n'
             '    try:\n'
             '        pt.mass(text, **prm); out.append(False)\n'
-            '    except ValueError:\n'
-            '        out.append(True)\n'
             '    except Exception:\n'
             '        out.append(True)\n'
-            'print("VERDICTS" + json.dumps(out))\n') % json.dumps(items)
-    rc, out = run_fresh(code)
+            'print("VERDICTS" + json.dumps(out))\n')
+    rc, out = run_fresh(code, stdin=json.dumps(items))
     for line in out.split('\n'):
         if line.startswith('VERDICTS'):
             return json.loads(line[len('VERDICTS'):])
